@@ -417,6 +417,24 @@ theorem bvh_hit_eq_hitlist_any_order [LinearOrder K] (sub : B → B → Prop) (b
   exact (listHit_congr_mem (fun h => f h mn) primHit mn (fun h mx => hc h mn mx) objs t.leaves hobjs mx).symm
 
 
+/-- Nearest ray hit through the OCTREE (`rendering.Tree.Hit`, tree.go, and `rendering.Mesh.Hit2`: collect
+    `ElementsIntersectingRay`, then the `HitList` loop over those): on a `Covers` tree it returns the same flag and
+    distance as the `HitList` loop over ALL elements — for primitives that hit only where the slab test accepts their
+    box and report their first hit exactly when it is within the range. -/
+theorem octree_hit_eq_hitlist (t : Oct Box (Elem ℝ)) (ht : Covers t) (o d : P3)
+    (f : Elem ℝ → ℝ → Option ℝ) (primHit : Elem ℝ → ℝ → ℝ → Option ℝ)
+    (hprim : ∀ e mn mx dist, primHit e mn mx = some dist → intersectsRayInRange e.box o d mn mx = true)
+    (hc : ∀ e mn mx, primHit e mn mx = (f e mn).bind (fun x => if x ≤ mx then some x else none))
+    (mn mx : ℝ) :
+    listHit primHit (t.pruned (fun b => !intersectsRayInRange b o d mn mx)
+      (fun e => intersectsRayInRange e.box o d mn mx)) mn mx = listHit primHit t.allElems mn mx := by
+  rw [pruned_eq_scan (fun (b : Box) (e : Elem ℝ) => BoxSub e.box b) _ _ _ t ht]
+  · apply listHit_congr_hits (fun e => f e mn) primHit mn (fun e mx => hc e mn mx)
+    intro e dist hp
+    simp only [List.mem_filter, hprim e mn mx dist hp, and_true]
+  · intro b e hsub hacc
+    simp [Tree.slab_mono hsub o d mn mx hacc]
+
 theorem boxSub_trans {a b c : Box} (h1 : BoxSub a b) (h2 : BoxSub b c) : BoxSub a c :=
   ⟨contains_mono h2 _ h1.1, contains_mono h2 _ h1.2⟩
 
